@@ -135,6 +135,7 @@ def run_case(case, ctx):
     expect_rows = None
     expect_cols = None
     expanded = True
+    recv = None
     with ctx.guard(("C08", getter, "exception"), case):
         if getter.startswith("get_cell"):
             # clone=False hands out the live cell: only with keep_repeated=True is it a pure read
@@ -178,7 +179,9 @@ def run_case(case, ctx):
             expect_cells = [(x, yy) for yy in range(h)]
             expanded = False  # row repeats are expanded; the cells keep their own (horizontal) count like get_cell()
         else:  # Row.*
-            row = t.get_row(y)
+            # the receiver is a copy of the row or (live) the stored row itself
+            row = t.get_row(y, clone=False) if case.get("live") else t.get_row(y)
+            recv = row
             mrow = m.get_row(y)
             if getter == "Row.get_cell":
                 res = [row.get_cell(alpha(x) if form == "s" else x)]
@@ -241,6 +244,7 @@ def run_case(case, ctx):
             k = pick % len(objs)
             target = objs[k]
             others = [ser(o) for i, o in enumerate(objs) if i != k]
+            recv_before = ser(recv) if recv is not None else None
             unrepeated_row = isinstance(target, Row) and getter == "traverse"
             skip = unrepeated_row and not _row_in_run(t, target.y) and ctx.known(("C08", "Table.traverse", "alias-unrepeated-row"))
             mutate(target, mut, mv, mn)
@@ -254,6 +258,9 @@ def run_case(case, ctx):
                     else ("C08", getter, "not-detached")
                 ctx.check(ser(t) == before, sig,
                           f"mutating ({mut}) the object returned by {getter} changed the table", case)
+                if recv is not None:
+                    ctx.check(ser(recv) == recv_before, ("C08", getter, "not-detached-from-row"),
+                              f"mutating ({mut}) the cell returned by {getter} changed the row it was read from", case)
                 now = [ser(o) for i, o in enumerate(objs) if i != k]
                 ctx.check(now == others, ("C08", getter, "aliases-other-result"),
                           f"mutating ({mut}) one returned object changed another returned object", case)
@@ -303,7 +310,7 @@ def run_shard(ctx):
         "spec": st_initial(()), "pre": st.lists(pre_op, max_size=4), "getter": st.sampled_from(GETTERS),
         "x": st.integers(0, 8), "y": st.integers(0, 8), "dx": st.integers(0, 4), "dy": st.integers(0, 4),
         "form": st.sampled_from(["t", "s"]), "mut": st.sampled_from(MUTS), "mv": vi, "mn": st.integers(2, 4),
-        "pick": st.integers(0, 30),
+        "pick": st.integers(0, 30), "live": st.booleans(),
     })
 
     def mk():
